@@ -264,7 +264,7 @@ def dataReadable (s : Img) (d : RawDesc) : Bool := (objContent s.st d).length ==
     caller predicate reads the object (`GetData`), so an unreadable candidate is an error. -/
 def getGroupSignatures (facts : Bytes → SigFacts) (s : Img) (g : Nat) (legacy : Bool) :
     Except IErr (List RawDesc) :=
-  if s.h.dfree == s.h.dtotal then .error (.sif .noObjects)
+  if s.isEmpty then .error (.sif .noObjects)
   else if g == 0 then
     -- WithLinkedGroupID(0) raises its error at the first signature object that reaches it
     if (live s.rds).any (fun d => d.dtype == dtSignature) then .error (.sif .invalidGroupID)
